@@ -136,7 +136,7 @@ func runLoop(w *out.W, tier string) {
 	w.Rule = "a case is non-trivial when SQLite accepted the schema (>= 1 table created); distinct by (creation path, feature-tag set)"
 	n := 300
 	if tier == "thorough" {
-		n = 12000
+		n = 5000
 	}
 	var cases []*loopCase
 	// fixed corpus of statement shapes first
